@@ -310,10 +310,12 @@ def run_mesh(sx, scenario, probes=1):
     for b in boxes:
         mesh.add(b)
     mesh.assemble()
+    shared = [v.index for v in mesh.blocks[0].vertices if v in mesh.blocks[1].vertices]
+    lead = 0 if scenario.endswith("vertex0") else shared[0]        # (vertex 0: the first corner of the first block)
+    # the clamped vertex starts off its best position, so that a real minimiser has something to improve
+    mesh.vertices[lead].move_to(mesh.vertices[lead].position + sx.vec(0.3, 0.2, -0.25))
     P0 = [np.array(v.position, dtype=v.position.dtype) for v in mesh.vertices]
     opt = MeshOptimizer(mesh, report=False)
-    shared = [v.index for v in mesh.blocks[0].vertices if v in mesh.blocks[1].vertices]
-    lead = shared[0]
     a = P0[lead]
     clamp = cb.LineClamp(a, a, a + sx.vec(0.0, 1.0, 1.0), (0, Fraction(1, 4))) if scenario == "line" else cb.FreeClamp(a)
     opt.add_clamp(clamp)
@@ -348,7 +350,7 @@ def jobs(tier, seed):
     add("run_sketch", "sketch|3x3|free|2 iterations", name="3x3", scenario="free", iterations=2)
     add("run_clamp_step", "clamp-step|2x2", name="2x2")
     add("run_clamp_step", "clamp-step|disk", name="disk")
-    for sc in ("free", "line"):
+    for sc in ("free", "line", "free-vertex0"):
         add("run_mesh", f"mesh|2 boxes|{sc}", scenario=sc)
     if tier == "thorough":
         for sc in ("free", "free+2links", "two-clamps"):
